@@ -240,6 +240,7 @@ def main(run):
     _mesh_lookup(run, rng, thorough, lines, meta, allrel)
     _grid_order(run, rng, thorough, lines, meta)
     _object_reuse(run, rng, thorough, lines, meta)
+    _mixed_paths(run, rng, thorough, lines, meta)
     _large_dos(run, rng, thorough)
     _relabelled(run, rng, thorough)
 
@@ -713,6 +714,79 @@ def _grid_order(run, rng, thorough, lines, meta):
             run.violation("Phonopy.run_total_dos", "dos-depends-on-frequency-grid-order",
                           "total DOS on the descending grid (freq_min > freq_max, negative pitch) differs from the ascending grid by %.3g"
                           % np.abs(np.array(dd["total_dos"])[:n] - np.array(da["total_dos"])[::-1][:n]).max(), dict(info, freq_pitch=-pitch))
+
+
+def _mixed_paths(run, rng, thorough, lines, meta):
+    """The integration weights of a grid point do not depend on the route: TetrahedronMesh(lang = C | Py) x set(lang = C | Py),
+    all four compared with each other per grid point and one with the models; and the 24x4 vertex-frequency table of
+    get_tetrahedra_frequencies (compiled and Python lookup, compiled and Python tetrahedra tables) against an independent
+    numpy evaluation from the mesh frequencies and grid addresses."""
+    from phonopy.phonon.tetrahedron_mesh import TetrahedronMesh, get_tetrahedra_frequencies
+    from phonopy.structure.grid_points import GridPoints
+    from phonopy.structure.tetrahedron_method import TetrahedronMethod
+
+    for it in range(3 if thorough else 1):
+        name = rng.choice(["cscl", "nacl_prim", "hcp", "mono_P"])
+        cell, cen = gen.make_cell(name)
+        ph = gen.make_phonopy(cell, np.diag([2, 2, 2]), pmat="P")
+        ph.force_constants = gen.pair_fc(ph.supercell, min(0.9 * gen.min_lattice_vector(ph.supercell.cell), 5.0))
+        mesh = rng.choice([[2, 2, 2], [3, 3, 2], [2, 3, 4], [3, 3, 3]])
+        sym = rng.random() < 0.5
+        ph.run_mesh(mesh, is_mesh_symmetry=sym, is_gamma_center=rng.random() < 0.5)
+        m = ph.mesh
+        fr = np.array(m.frequencies)
+        ga = np.array(m.grid_address, dtype="int64")
+        tab = np.array(m.grid_mapping_table, dtype="int64")
+        msh = np.array(m.mesh_numbers, dtype="int64")
+        gpi = _gp_ir_index(tab, m.ir_grid_points)
+        fmin, fmax = float(fr.min()), float(fr.max())
+        fp = np.array([fmin - 0.2] + sorted(rng.uniform(fmin, fmax) for _ in range(4)) + [fmax + 0.2])
+        info = dict(cell=name, mesh=list(mesh), is_mesh_symmetry=sym, frequency_points=fp.tolist(), force_constants="gen.pair_fc, 2x2x2")
+        # ---- vertex-frequency tables: independent oracle
+        reclat = np.linalg.inv(np.array(ph.primitive.cell))
+        for tlang in ("C", "Py"):
+            rel = np.array(TetrahedronMethod(reclat, mesh=msh, lang=tlang).tetrahedra, dtype="int64", order="C")
+            for g in rng.sample([int(v) for v in m.ir_grid_points], min(4, len(m.ir_grid_points))):
+                a = (ga[g][None, None, :] + rel) % msh
+                idx = a[..., 0] + msh[0] * (a[..., 1] + msh[1] * a[..., 2])
+                expect = fr[gpi[idx]].transpose(2, 0, 1)          # [band, 24, 4]
+                for llang in ("C", "Py"):
+                    got = np.array(get_tetrahedra_frequencies(g, msh, ga, rel, gpi, fr, grid_order=[1, int(msh[0]), int(msh[0] * msh[1])], lang=llang))
+                    run.count("oracle-vertex-frequency-table", section="oracle")
+                    if got.shape != expect.shape or not (got == expect).all():
+                        run.violation("get_tetrahedra_frequencies", "vertex-frequencies-wrong-%s-lookup-%s-tetrahedra" % (llang, tlang),
+                                      "vertex frequencies of the 24 tetrahedra around grid point %d differ from frequencies[gp_ir_index[index(address + relative address)]]"
+                                      " (%d of %d entries)" % (g, int((got != expect).sum()) if got.shape == expect.shape else -1, expect.size),
+                                      dict(info, grid_point=g, lookup_lang=llang, tetrahedra_table=tlang))
+        # ---- the four routes
+        for value in ("I", "J"):
+            res = {}
+            for mlang in ("C", "Py"):
+                for slang in ("C", "Py"):
+                    thm = TetrahedronMesh(ph.primitive, fr, msh, ga, tab, m.ir_grid_points, lang=mlang)
+                    thm.set(value=value, frequency_points=fp, lang=slang)
+                    with np.errstate(all="ignore"):
+                        res[(mlang, slang)] = np.array([np.array(iw).copy() for iw in thm])
+            ref = res[("C", "C")]
+            for key, arr in res.items():
+                run.count("oracle-mixed-routes", section="oracle")
+                err = float(np.abs(arr - ref).max()) if arr.shape == ref.shape else float("inf")
+                if err > 1e-10:
+                    run.violation("TetrahedronMesh.set", "route-dependent-weights-mesh-%s-set-%s" % key,
+                                  "per grid point integration weights (%s) of TetrahedronMesh(lang=%s).set(lang=%s) differ from the compiled route by %.3g"
+                                  % (value, key[0], key[1], err), dict(info, value=value, mesh_lang=key[0], set_lang=key[1]))
+            run.case(("routes", name, tuple(mesh), sym, value), nontrivial=True)
+            # one grid point / band of the mixed route C-mesh + Py-set against the Python model
+            igp = rng.randint(0, len(m.ir_grid_points) - 1)
+            band = rng.randint(0, fr.shape[1] - 1)
+            tmpy = TetrahedronMethod(reclat, mesh=msh, lang="Py")
+            relpy = np.array(tmpy.tetrahedra, dtype="int64")
+            a = (ga[int(m.ir_grid_points[igp])][None, None, :] + relpy) % msh
+            tet = fr[gpi[a[..., 0] + msh[0] * (a[..., 1] + msh[1] * a[..., 2])], band]
+            impl = res[("C", "Py")][igp][:, band] * float(np.prod(msh))
+            for cl in (0, 1):
+                lines.append("pw %s %d %d %s %s %s" % (value, cl, len(fp), _rats(fp), _rats(tet), " ".join(str(int(c)) for c in _central_of(relpy))))
+                meta.append(("pw%d" % cl, dict(info, function=value, grid_point=igp, band=band, route="mesh C, set Py"), impl))
 
 
 def _object_reuse(run, rng, thorough, lines, meta):
